@@ -23,13 +23,16 @@ Theorem c11_inventory_current : inventory_current GenState.rows = true.
 Proof. vm_compute. reflexivity. Qed.
 Print Assumptions c11_inventory_current.
 
-(* ---- process-global state: schedules and histories ---- *)
+(* ---- process-global state: schedules and histories ----
+   Since the repair 2f50a3c (LogSuppressLock::drop saturates instead of underflowing) no step of the machine can panic
+   on or poison CURRENT_LOG, so every statement below holds for ARBITRARY thread programs: compilations and calls of
+   the debug API (debug::log_start / log_finish) mixed, on any number of threads, under any schedule.  The hypotheses
+   `Forall compile_only progs` the statements needed while F10j was open are gone. *)
 Definition compile_only (p : list step) : Prop := forallb compile_step p = true.
 
-(* whatever N compilations run concurrently under whatever schedule, a compilation that completes has read
-   from the globals exactly what it reads when it runs alone in a fresh process *)
+(* whatever N threads do concurrently under whatever schedule, a thread that completes has read from the globals
+   exactly what it reads when it runs alone in a fresh process *)
 Theorem c11_interleaving_independent : forall (cell_init : cell -> N) (env : N) progs sched i p t,
-  Forall compile_only progs ->
   nth_error progs i = Some p ->
   nth_error (snd (run cell_init env g_init (map spawn progs) sched)) i = Some t -> finished t = true ->
   forall t1, nth_error (snd (run cell_init env g_init [spawn p] (repeat 0 (length p)))) 0 = Some t1 -> finished t1 = true ->
@@ -37,47 +40,57 @@ Theorem c11_interleaving_independent : forall (cell_init : cell -> N) (env : N) 
 Proof. exact interleaving_independent. Qed.
 Print Assumptions c11_interleaving_independent.
 
-(* ... and no compile step can panic on, or poison, the log lock *)
+(* ... and the run-alone reference really completes (the statement above is not vacuous) *)
+Theorem c11_alone_finishes : forall (cell_init : cell -> N) (env : N) p,
+  exists t1, nth_error (snd (run cell_init env g_init [spawn p] (repeat 0 (length p)))) 0 = Some t1 /\ finished t1 = true.
+Proof. exact alone_finishes. Qed.
+Print Assumptions c11_alone_finishes.
+
+(* no step can panic on, or poison, the log lock *)
 Theorem c11_compile_never_poisons : forall (cell_init : cell -> N) (env : N) g progs sched,
-  GInv cell_init g -> Forall compile_only progs ->
+  GInv cell_init g ->
+  g_poisoned (fst (run cell_init env g (map spawn progs) sched)) = false /\
   forall i t, nth_error (snd (run cell_init env g (map spawn progs) sched)) i = Some t -> t_panicked t = false.
-Proof. exact never_panics. Qed.
+Proof. intros ci env g progs sched HG. split; [apply never_poisons; exact HG | apply never_panics; exact HG]. Qed.
 Print Assumptions c11_compile_never_poisons.
 
-(* after any history of compilations (complete, failed or cut short by a panic; sequential or concurrent) a
-   compilation reads the same constants as in a fresh process *)
+(* after any history (threads of any kind; complete, failed or cut short by a panic of the compiler proper;
+   sequential or concurrent) a compilation reads the same constants as in a fresh process *)
 Theorem c11_history_independent : forall (cell_init : cell -> N) (env : N) hist hsched p sched t,
-  Forall compile_only hist -> compile_only p ->
   let g := fst (run cell_init env g_init (map spawn hist) hsched) in
   nth_error (snd (run cell_init env g [spawn p] sched)) 0 = Some t -> finished t = true ->
   t_reads t = expected_reads cell_init env p.
 Proof. exact history_independent. Qed.
 Print Assumptions c11_history_independent.
 
-(* The debug API (debug::log_start / log_finish) between compilations: since the F10x repair log_start no longer
-   asserts under the lock (F10h fixed), so ANY history of batches of compilations (any schedule, complete or cut
-   short) with API calls between the batches leaves a later compilation unaffected. *)
+(* histories of batches of threads with debug-API calls between the batches (F10h, fixed by 9396557) *)
 Theorem c11_history_with_log_api_independent : forall (cell_init : cell -> N) (env : N) hist p sched t,
-  Forall hitem_ok hist -> compile_only p ->
   let g := fold_left (hstep cell_init env) hist g_init in
   nth_error (snd (run cell_init env g [spawn p] sched)) 0 = Some t -> finished t = true ->
   t_reads t = expected_reads cell_init env p /\ t_panicked t = false.
 Proof. exact history_with_api_independent. Qed.
 Print Assumptions c11_history_with_log_api_independent.
 
-(* Full statement with the API used CONCURRENTLY with a compilation (false, F10j): restarting the log while a
-   compilation holds a LogSuppressLock makes its Drop underflow suppress_count under the write lock; the lock is
-   poisoned and the compilation panics at its next log call.  Thread 0 starts a log, thread 1 is the compilation
-   (load_std_lib: suppress; ...; drop; log entry), thread 2 restarts the log in between. *)
-Theorem c11_concurrent_log_restart_refuted :
-  exists progs sched t, compile_only (nth 1 progs []) /\
-    let ci := fun _ : cell => 0%N in
-    nth_error (snd (run ci 0%N g_init (map spawn progs) sched)) 1 = Some t /\ t_panicked t = true.
-Proof.
-  exists [[SLogStart]; [SSuppressInc; SSuppressDec; SLogEntry 0%N]; [SLogFinish; SLogStart]], [0; 1; 2; 2; 1; 1]%nat.
-  eexists. split; [reflexivity|]. split; vm_compute; reflexivity.
-Qed.
-Print Assumptions c11_concurrent_log_restart_refuted.
+(* The debug API used CONCURRENTLY with compilations -- the statement that was false while F10j was open
+   (`c11_concurrent_log_restart_refuted`), now at full strength: after any history, with any threads in any
+   interleaving, the lock is not poisoned, nobody panics, and every thread that completes has read the constants. *)
+Theorem c11_concurrent_log_api_independent : forall (cell_init : cell -> N) (env : N) hist progs sched,
+  let g := fold_left (hstep cell_init env) hist g_init in
+  g_poisoned (fst (run cell_init env g (map spawn progs) sched)) = false /\
+  forall i p t, nth_error progs i = Some p -> nth_error (snd (run cell_init env g (map spawn progs) sched)) i = Some t ->
+    t_panicked t = false /\ (finished t = true -> t_reads t = expected_reads cell_init env p).
+Proof. exact concurrent_api_independent. Qed.
+Print Assumptions c11_concurrent_log_api_independent.
+
+(* the schedule that refuted the statement before 2f50a3c (thread 0 starts a log, thread 1 is the compilation --
+   load_std_lib: suppress; ...; drop; log entry --, thread 2 restarts the log in between): the compilation completes *)
+Example c11_ex_former_f10j_schedule :
+  let ci := fun _ : cell => 0%N in
+  let r := run ci 0%N g_init (map spawn [[SLogStart]; [SSuppressInc; SGetOrInit CStd; SSuppressDec; SLogEntry 0%N]; [SLogFinish; SLogStart]])
+               [0; 1; 2; 2; 1; 1; 1]%nat in
+  g_poisoned (fst r) = false /\ option_map finished (nth_error (snd r) 1) = Some true
+  /\ option_map t_reads (nth_error (snd r) 1) = Some [0%N].
+Proof. vm_compute. auto. Qed.
 
 (* ---- hash-map iteration: generic pattern lemmas ---- *)
 Theorem c11_perm_invariant_sort : forall (A : Type) (leb : A -> A -> bool),
@@ -125,6 +138,10 @@ Proof.
                 | exact perm_invariant_max | exact perm_invariant_find_value].
 Qed.
 Print Assumptions c11_perm_invariant_all_any_len_max.
+
+Theorem c11_perm_invariant_min : forall l l', Permutation l l' -> min_of l = min_of l'.
+Proof. exact perm_invariant_min. Qed.
+Print Assumptions c11_perm_invariant_min.
 
 (* ---- the sites named by the property ---- *)
 
@@ -221,10 +238,20 @@ Theorem c11_perm_invariant_available_columns : forall (A : Type) (leb : A -> A -
 Proof. exact perm_invariant_sort. Qed.
 Print Assumptions c11_perm_invariant_available_columns.
 
+(* ---- repaired by 987d30b (was F10k) ----
+   resolver/expr.rs construct_tuple_from_module (`this.*`, `t.*`, `this`): the declarations of a module sorted by
+   (order, name).  Names are the keys of the map, hence distinct: the order is total and antisymmetric on the entries,
+   whatever the `order` values are (an input sub-module and a directly declared column do share one). *)
+Theorem c11_perm_invariant_this_wildcard : forall (V : Type) (l l' : list (nat * nat * V)),
+  NoDup (map (fun e => snd (fst e)) l) -> Permutation l l' ->
+  isort _ (@order_name_leb V) l = isort _ (@order_name_leb V) l'.
+Proof. exact perm_invariant_sort_by_order_name. Qed.
+Print Assumptions c11_perm_invariant_this_wildcard.
+
 (* ---- LIBRARY LEMMAS (describe no reachable site of the current tree): the order-sensitive operations really are
    order-sensitive, i.e. the sorts / minima introduced by the repair are needed.  first_error is still the shape of
-   ir/pl/fold.rs fold_func_call (latent), sort-by-shared-key that of construct_tuple_from_module if two
-   declarations ever shared an `order`. ---- *)
+   ir/pl/fold.rs fold_func_call (latent), sort-by-shared-key that of construct_tuple_from_module before 987d30b (an
+   input sub-module and a direct column sharing an `order`: F10k). ---- *)
 Theorem c11_lib_head_of_order_dependent : exists l l' : list nat, Permutation l l' /\ head_of nat l <> head_of nat l'.
 Proof. exact head_of_refuted. Qed.
 Print Assumptions c11_lib_head_of_order_dependent.
@@ -255,5 +282,12 @@ Proof. exact sort_by_key_dup_refuted. Qed.
 Print Assumptions c11_lib_sort_by_shared_key_order_dependent.
 
 (* non-vacuity *)
+(* `from t | join u (==id) | select {d = 1, t.a, u.b} | select {this.*}`: sub-module t (order 0), column d (order 1),
+   sub-module u (order 1) -- the tie of d and u is broken by name in either iteration order *)
+Example c11_ex_this_wildcard_tie :
+  isort _ (@order_name_leb nat) [((1, 21), 0); ((0, 20), 1); ((1, 4), 2)] = [((0, 20), 1); ((1, 4), 2); ((1, 21), 0)]
+  /\ isort _ (@order_name_leb nat) [((1, 4), 2); ((1, 21), 0); ((0, 20), 1)] = [((0, 20), 1); ((1, 4), 2); ((1, 21), 0)].
+Proof. vm_compute. auto. Qed.
+
 Example c11_ex_sort : isort _ (key_leb nat) [(2, 0); (1, 5); (3, 7)] = isort _ (key_leb nat) [(3, 7); (2, 0); (1, 5)].
 Proof. vm_compute. reflexivity. Qed.
